@@ -128,6 +128,15 @@ def build_small(iface: str, recipe: str, sym: Dict[str, Any]):
         r = M.JSONResponse({"a": [1, "é", None]}, st, headers)
     elif recipe == "redirect":
         r = M.RedirectResponse(sym.get("url", "/x"), st if st != 200 else 307, headers)
+    # non-default constructor arguments of the small responses
+    elif recipe == "text-media-with-charset":
+        r = M.PlainTextResponse(sym.get("text", "hi"), st, headers, media_type="text/plain; charset=utf-8")
+    elif recipe == "html-charset-latin1":
+        r = M.HTMLResponse(sym.get("text", "<p>"), st, headers, charset="latin-1")
+    elif recipe == "text-media-not-text":
+        r = M.PlainTextResponse(sym.get("body", b"{}"), st, headers, media_type="application/problem+json")
+    elif recipe == "json-kwargs":
+        r = M.JSONResponse({"b": 1, "a": "\u00e9"}, st, headers, ensure_ascii=True, sort_keys=True, indent=1)
     elif recipe == "append-existing":
         # a header that is already there gets a second value through append() under a differently cased name (what a subclass
         # overriding set_response_headers, or a view adding to Vary, does)
@@ -510,6 +519,11 @@ def jobs(tier: str):
                 out.append(dict(name=f"small/{iface}/{recipe}/header{n}", kind="small", iface=iface, recipe=recipe, what="header", n=n, fault=(n == 1)))
             for n in range(0, min(2, b["text_chars"]) + 1):  # 3 quoted cookie characters exhaust the class-correct placeholder pool (C13/C16 go to 4)
                 out.append(dict(name=f"small/{iface}/{recipe}/cookie{n}", kind="small", iface=iface, recipe=recipe, what="cookie", n=n, weight=5 ** n))
+        for recipe in ("text-media-with-charset", "html-charset-latin1", "text-media-not-text", "json-kwargs"):
+            out.append(dict(name=f"small/{iface}/{recipe}/status", kind="small", iface=iface, recipe=recipe, what="status", weight=70))
+            out.append(dict(name=f"small/{iface}/{recipe}/header1", kind="small", iface=iface, recipe=recipe, what="header", n=1))
+        for n in (0, 1):
+            out.append(dict(name=f"small/{iface}/html-charset-latin1/text{n}", kind="small", iface=iface, recipe="html-charset-latin1", what="text", n=n))
         for n in (0, 1, 2):
             out.append(dict(name=f"small/{iface}/append-existing/header{n}", kind="small", iface=iface, recipe="append-existing", what="header", n=n))
         for n in range(0, b["text_chars"] + 1):
@@ -552,12 +566,17 @@ def job_static_vanish(job) -> report.JobResult:
     iface, app_kind = job["iface"], job["app"]
     eng = Engine(budget_s=300)
 
-    def run(when: int, e):
+    REQUESTS = ["/f.html", "/sub", "/sub/", "/missing", "/f"]
+
+    def run(when: int, e, target="/f.html"):
         M = WS_ if iface == "wsgi" else AS_
         with tempfile.TemporaryDirectory() as d:
             p = os.path.join(d, "f.html")
             with open(p, "w") as f:
                 f.write("0123456789")
+            os.mkdir(os.path.join(d, "sub"))
+            with open(os.path.join(d, "sub", "index.html"), "w") as f:
+                f.write("index of sub")
             if iface == "wsgi":
                 def not_found(environ, start_response):
                     start_response("404 Not Found", [("content-type", "text/plain")])
@@ -583,7 +602,8 @@ def job_static_vanish(job) -> report.JobResult:
                     return lambda b: ev.append(("write", b))
                 it = None
                 try:
-                    it = app({"REQUEST_METHOD": "GET", "PATH_INFO": "/f.html", "SCRIPT_NAME": ""}, start_response)
+                    it = app({"REQUEST_METHOD": "GET", "PATH_INFO": target, "SCRIPT_NAME": "", "wsgi.url_scheme": "http", "SERVER_NAME": "h", "SERVER_PORT": "80",
+                              "QUERY_STRING": ""}, start_response)
                     for chunk in it:
                         ev.append(("body", chunk))
                     done = True
@@ -602,7 +622,8 @@ def job_static_vanish(job) -> report.JobResult:
                 async def receive():
                     return {"type": "http.disconnect"}
                 try:
-                    asyncio.run(app({"type": "http", "method": "GET", "path": "/f.html", "root_path": "", "headers": []}, receive, send))
+                    asyncio.run(app({"type": "http", "method": "GET", "path": target, "root_path": "", "headers": [], "scheme": "http", "server": ("h", 80),
+                                     "query_string": b""}, receive, send))
                     done = True
                 except Exception as ex:  # noqa: BLE001
                     ev.append(("raise", ex))
@@ -616,7 +637,9 @@ def job_static_vanish(job) -> report.JobResult:
         e = cur()
         when = e.choose(3, "file_removed")  # 0 before the request, 1 between stat() and open(), 2 never
         e.path_notes.update(file_removed=when)  # 0 before the request, 1 between stat() and open(), 2 never
-        out = run(when, e)
+        target = REQUESTS[e.choose(len(REQUESTS), "request")] if when == 2 else "/f.html"  # also a directory with / without slash, a missing path
+        e.path_notes.update(request=target)
+        out = run(when, e, target)
         if twin:
             raise Fail("twin-assert-false")
         return out
@@ -625,7 +648,8 @@ def job_static_vanish(job) -> report.JobResult:
         prev = Engine.cur
         Engine.cur = None
         try:
-            run(wit["raw"]["file_removed"], _PlainEngine())
+            raw = _unraw(wit["raw"])
+            run(raw["file_removed"], _PlainEngine(), raw.get("request", "/f.html"))
             return None
         except Fail as f:
             return f"{f.klass}: {f.detail}"
